@@ -135,6 +135,9 @@ def gen_case(rng, idx, quick, corner=None):
     c["rf"] = gen_faults(rng, rng.range(2, 30), tls, "r")
     # spurious WANT_WRITE only: a spurious WANT_READ before the first flight was written is not something OpenSSL can answer
     c["hf"] = ["w" for _ in range(rng.range(1, 3))] if tls and rng.chance(1, 3) else []
+    if tls and rng.chance(1, 25):
+        c["hf"] = c["hf"][:1] + ["e"]          # a fatal handshake failure: everything accepted so far is dropped together with the close
+        c["expectend"] = 1
     c["wd"] = [rng.choice([0, 0, 30, 200, 1000]) for _ in range(rng.range(0, 30))] if rng.chance(1, 2) else []
     # peer behaviour
     small_total = total <= 30000
@@ -404,6 +407,11 @@ def check_cases(ctx, hb, cases, workers, dist, tag=""):
         raise RuntimeError("model driver failed rc=%s lines=%d/%d: %s" % (mrc, len(mout), len(mlines), merr[-400:]))
     for (c, r), (a, b) in zip(good, spans):
         out = mout[a:b]
+        m = re.search(r" br=(\S+)", out[-1]) if out else None
+        if m and m.group(1) != "-":
+            for kvp in m.group(1).split(","):
+                k, v = kvp.rsplit("=", 1)
+                dist["model_branches"][k] = dist["model_branches"].get(k, 0) + int(v)
         fails = monitor(c, r)
         rejects = [(ls, o) for ls, o in zip(mlines[a:b], out) if not o.startswith("ok")]
         toks = [t for s in r["segs"] for t in s.split(";")]
@@ -486,7 +494,7 @@ def replay(ctx):
 
 
 def new_dist():
-    return {"category": {}, "observations": {}, "config": {}, "reached": {}, "close_why": {}, "sends": 0, "bytes": 0, "write_calls": 0, "segments": 0}
+    return {"category": {}, "observations": {}, "model_branches": {}, "config": {}, "reached": {}, "close_why": {}, "sends": 0, "bytes": 0, "write_calls": 0, "segments": 0}
 
 
 def run(ctx: Ctx):
